@@ -1,6 +1,7 @@
 (* RegistryProofs.v — theorems about the Registry model (property C17). *)
 From Coq Require Import NArith List Bool Lia Permutation.
 From KV Require Import Registry.
+From KV.gen Require Import TxFacts.
 Import ListNotations.
 Open Scope N_scope.
 
@@ -779,7 +780,7 @@ Qed.
 
 Lemma shutdown_Inv : forall cfg s, Inv s -> Inv (fst (shutdown cfg s)).
 Proof.
-  intros cfg s [I S]. unfold shutdown. destruct (stopped s); simpl. split; assumption.
+  intros cfg s [I S]. unfold shutdown. destruct (shutdown_panics s); simpl. split; assumption.
   apply settle_all_Inv. apply fold_purge_inv.
   - eapply shape_inv. 2: exact I. repeat split.
   - simpl. apply (i_rind s (proj1 I)).
@@ -1366,7 +1367,7 @@ Proof.
   - exact H.
   - apply stale_ended; auto.
   - unfold clean_conn. apply settle_ended. apply fold_purge_ended. assumption.
-  - unfold shutdown. destruct (stopped s); simpl; auto.
+  - unfold shutdown. destruct (shutdown_panics s); simpl; auto.
     apply settle_ended. apply fold_purge_ended. exact H.
   - exact H.
 Qed.
@@ -1519,7 +1520,7 @@ Proof.
 Qed.
 
 (* GracefulShutdown *)
-Theorem shutdown_rolls_back : forall cfg s r, reachable cfg s -> In r (reg s) -> stopped s = false ->
+Theorem shutdown_rolls_back : forall cfg s r, reachable cfg s -> In r (reg s) -> shutdown_panics s = false ->
   let s' := fst (step cfg s EShutdown) in
   is_active (r_b r) s' = false /\ registered (r_id r) s' = false.
 Proof.
@@ -1716,7 +1717,7 @@ Proof.
   - unfold clean_conn, settle_all. apply zg_settle. 2: apply zg_fold_purge; assumption.
     apply fold_purge_inv; auto. apply NoDup_map_filter. apply (i_rind s (proj1 I)).
     intros x Hx. apply filter_In in Hx. tauto.
-  - unfold shutdown. destruct (stopped s); simpl; auto.
+  - unfold shutdown. destruct (shutdown_panics s); simpl; auto.
     unfold settle_all. apply zg_settle.
     + apply fold_purge_inv. eapply shape_inv. 2: exact I. repeat split.
       simpl. apply (i_rind s (proj1 I)). simpl. apply incl_refl.
@@ -1883,7 +1884,7 @@ Proof.
       subst. unfold expire. destruct (negb (p_aband q) && (p_deadline q <=? now s + dt)); simpl; lia.
   - apply tinv_stale; auto.
   - unfold clean_conn, settle_all. apply tinv_settle. apply tinv_fold_purge. assumption.
-  - unfold shutdown. destruct (stopped s); simpl; auto.
+  - unfold shutdown. destruct (shutdown_panics s); simpl; auto.
     unfold settle_all. apply tinv_settle. apply tinv_fold_purge. exact T.
   - exact T.
 Qed.
@@ -1977,11 +1978,33 @@ Example second_transaction_of_same_client_waits :
   [OBegin 1 ROk; OBegin 1 RWait; OAsync 1 RTimeout].
 Proof. vm_compute. reflexivity. Qed.
 
-(* GracefulShutdown closes stopCleanup unconditionally: a second call panics *)
-Example shutdown_twice_panics :
+(* GracefulShutdown closes stopCleanup on every call unless the source guards it (generated
+   fact): a second call then panics *)
+Example shutdown_twice :
   let cfg := mkConfig 300 1300 900 10000 false true in
-  snd (run cfg init [EShutdown; EShutdown]) = [OMaint ROk; OMaint RPanic].
+  snd (run cfg init [EShutdown; EShutdown]) =
+  [OMaint ROk; if TxFacts.registry_shutdown_close_guarded then OMaint ROk else OMaint RPanic].
 Proof. vm_compute. reflexivity. Qed.
+
+(* ---------- the shipped limits ---------- *)
+
+(* a Begin gives up waiting before a transaction could be called idle: the transaction handed to
+   a caller that waited is never older than the idle limit *)
+Lemma shipped_wait_below_idle : TxFacts.registry_begin_timeout_ms < TxFacts.registry_default_idle_ms.
+Proof. vm_compute. reflexivity. Qed.
+
+(* with the limits of the binary: one run of the periodic cleanup after the idle limit frees the
+   lock from any reachable state *)
+Theorem shipped_cleanup_frees : forall svc peer s, reachable (shipped_config svc peer) s ->
+  let cfg := shipped_config svc peer in
+  let s2 := fst (run cfg s [ETick (TxFacts.registry_default_idle_ms + 1); EStale]) in
+  reg s2 = [] /\ lock_ids (lk s2) = [] /\ pends s2 = [] /\
+  forall c ro d, In (OBegin c ROk) (snd (step cfg s2 (EBegin c ro d))).
+Proof.
+  intros. apply cleanup_frees; auto.
+  - subst cfg. unfold shipped_config. cbn [c_btimeout]. pose proof shipped_wait_below_idle. lia.
+  - subst cfg. unfold shipped_config. cbn [c_idle]. lia.
+Qed.
 
 (* a Commit whose ApplyBatch fails still ends the transaction and releases the lock; nothing is
    applied and the transaction cannot be retried *)
